@@ -145,6 +145,140 @@ def rule_X7(ctx, files=CODEC_FILES, conv_files=None):
     return res, nidx, proved
 
 
+# ------------------------------------------------------------------ IDX1: counter-fed index into a fixed local array
+def _local_array_size(f, base_id):
+    n = f.nodes[f.strip_casts(base_id)]
+    while n['k'] in ('ImplicitCastExpr', 'ParenExpr') and n['ch']:
+        n = f.nodes[n['ch'][0]]
+    if n['k'] == 'DeclRefExpr' and n.get('rk') == 'local':
+        m = re.search(r'\[(\d+)\]$', n.get('t', ''))
+        if m:
+            return n['name'], int(m.group(1))
+    return None
+
+
+def _var(f, nid):
+    n = f.nodes[f.strip_casts(nid)]
+    while n['k'] in ('ParenExpr', 'CXXFunctionalCastExpr', 'CStyleCastExpr', 'CXXStaticCastExpr', 'ImplicitCastExpr') and n['ch']:
+        n = f.nodes[f.strip_casts(n['ch'][0])]
+    if n['k'] == 'DeclRefExpr' and n.get('rk') in ('local', 'param'):
+        return n['d']
+    return None
+
+
+def _is_const(f, nid):
+    n = f.nodes[f.strip_casts(nid)]
+    return 'cv' in n or n['k'] == 'IntegerLiteral'
+
+
+def rule_IDX1(ctx, files=None):
+    """A fixed-size local array indexed by a variable that is fed, around a loop, by a counter which nothing compares with
+    a constant.  Decided structurally (reaching copies, loop membership, comparisons present), for the indexes that the
+    interval analysis leaves unbounded above; an index it proves inside the array is discharged."""
+    from ..flow import Flow
+    res = RuleResult('IDX1', 'an index into a fixed-size local array is bounded: where the interval analysis cannot bound the '
+                             'index from above and the index is copied from a counter that grows around the enclosing loop '
+                             '(k = n; ... a[k] ...; n = k + 1), the counter is compared with a constant inside that loop '
+                             '(or in its condition) or the index is compared with one on every path from the copy to the use')
+    nsite = 0
+    for f in sorted(ctx.lib_fns(), key=lambda x: (x.file, x.line)):
+        if not f.cfg or (files is not None and not any(f.file.endswith(x) for x in files)):
+            continue
+        subs = []
+        for i, n in f.all_nodes():
+            if n['k'] == 'ArraySubscriptExpr':
+                b = _local_array_size(f, n['ch'][0])
+                k = _var(f, n['ch'][1])
+                if b and k:
+                    subs.append((i, n, b, k))
+        if not subs:
+            continue
+        iv = Intervals(ctx, f)
+        # copies k = c, and counters: variables assigned inside a loop from themselves or from another variable plus a
+        # constant (n = k + 1, ++n, n += 1)
+        copies = {}
+        grows = {}          # counter -> [(source variable, loops the growth statement is in)]
+        cmpconst = {}       # variable -> [loops a comparison of it with a constant is in]
+        LOOPS = ('WhileStmt', 'ForStmt', 'DoStmt')
+
+        def real_loop(a):
+            ln = f.nodes[a]
+            if ln['k'] not in LOOPS:
+                return False
+            if ln['k'] == 'DoStmt' and ln.get('cond', -1) is not None and ln.get('cond', -1) >= 0:
+                cn = f.nodes[f.strip_casts(ln['cond'])]
+                if cn['k'] == 'CXXBoolLiteralExpr' and str(cn.get('v', cn.get('cv', ''))).lower() in ('false', '0'):
+                    return False          # do { ... } while (false): a block to break out of, not a loop
+            return True
+
+        def loops_of(i):
+            return frozenset(a for a in f.ancestors(i) if real_loop(a))
+        for i, n in f.all_nodes():
+            if n['k'] == 'BinaryOperator' and n.get('op') == '=':
+                l, r = _var(f, n['ch'][0]), _var(f, n['ch'][1])
+                if l and r:
+                    copies.setdefault(l, set()).add(r)
+                rn = f.nodes[f.strip_casts(n['ch'][1])]
+                if l and rn['k'] == 'BinaryOperator' and rn.get('op') == '+':
+                    a, b = _var(f, rn['ch'][0]), _var(f, rn['ch'][1])
+                    src = a if (a and _is_const(f, rn['ch'][1])) else (b if (b and _is_const(f, rn['ch'][0])) else None)
+                    if src and loops_of(i):
+                        grows.setdefault(l, []).append((src, loops_of(i)))
+            elif n['k'] == 'UnaryOperator' and n.get('op') == '++':
+                v = _var(f, n['ch'][0])
+                if v and loops_of(i):
+                    grows.setdefault(v, []).append((v, loops_of(i)))
+            elif n['k'] == 'CompoundAssignOperator' and n.get('op') == '+=' and _is_const(f, n['ch'][1]):
+                v = _var(f, n['ch'][0])
+                if v and loops_of(i):
+                    grows.setdefault(v, []).append((v, loops_of(i)))
+            elif n['k'] == 'BinaryOperator' and n.get('op') in ('<', '<=', '>', '>=', '==', '!='):
+                for a, b in ((n['ch'][0], n['ch'][1]), (n['ch'][1], n['ch'][0])):
+                    v = _var(f, a)
+                    if v and _is_const(f, b):
+                        cmpconst.setdefault(v, []).append(loops_of(i))
+        fl = None
+        for i, n, (aname, size), k in subs:
+            env = iv.env_at(i)
+            if env is None:
+                continue
+            nsite += 1
+            v = iv.ev(n['ch'][1], env)
+            if v.lo >= 0 and v.hi <= size - 1:
+                res.ob(True, None)
+                continue
+            # counters that feed the index and are themselves fed by it (or by themselves) around a loop that encloses
+            # this use
+            here = loops_of(i)
+            feeders = {c for c in set(copies.get(k, ())) | {k}
+                       if any(src in (k, c) and (lp & here) for src, lp in grows.get(c, ()))}
+            if v.hi != float('inf') or not feeders:
+                res.ob(True, None)      # not of this shape: left to X7 / undecided
+                continue
+            # a comparison of a feeding counter with a constant inside (or as the condition of) such a loop bounds it
+            if any(lp & here for c in feeders for lp in cmpconst.get(c, ())):
+                res.ob(True, {'fn': f.q, 'at': f.loc(i), 'array': '%s[%d]' % (aname, size), 'counter_compared_with_constant': True})
+                continue
+            fl = fl or Flow(f)
+            alts = fl.facts_at(i)
+            kk = 'v:%s' % k
+            def bounds_k(atom):
+                # a comparison of the index with a constant only
+                return kk in atom and atom.count('v:') == 1 and 'this.' not in atom and not atom.startswith('eq:')
+            ok = bool(alts) and all(any(bounds_k(a) for a, pol in alt) for alt in alts)
+            res.ob(ok, {'fn': f.q, 'at': f.loc(i), 'array': '%s[%d]' % (aname, size), 'index': k, 'fed_by': sorted(feeders)})
+            if not ok:
+                res.fail(f.q, '%s[%s]' % (aname, k.split('@')[0]), f.loc(i),
+                         'the index %s of %s[%d] is copied from the counter %s, which grows around the enclosing loop (%s) and is '
+                         'compared with no constant inside that loop; the index is not compared with a constant between the '
+                         'copy and this use either: enough iterations write past the array'
+                         % (k.split('@')[0], aname, size, ', '.join(sorted(c.split('@')[0] for c in feeders)),
+                            ', '.join(sorted({'%s = %s + c' % (c.split('@')[0], s_.split('@')[0]) for c in sorted(feeders)
+                                              for s_, lp in grows[c]}))))
+    res.analysed.update({'local_array_indexes': nsite})
+    return res, nsite
+
+
 # ------------------------------------------------------------------ X11: encoder fields vs decoder acceptance
 def _digit_loops(f, K):
     """[(for node, buffer index node, alphabet q, value decl id, base)] for loops of the form
